@@ -27,5 +27,5 @@ for c in reg.units:
                 if "--dump" in sys.argv:
                     s = z3.Solver(); s.add(*q); open("/tmp/q.smt2", "w").write(s.to_smt2())
                 if "--hyps" in sys.argv:
-                    for h in ob.hyps: print("   H:", str(h)[:600])
+                    for h in ob.hyps: print("   H:", str(h)[:6000])
                     print("   G:", str(ob.goal)[:1500])
